@@ -39,4 +39,10 @@ func init() {
 			"(3) per protocol and discriminator value the handler's content-type prefix, the prefix stripped to find the codec and the prefix the client sends are one constant, bare gRPC types only with a proto codec; "+
 			"(4) every constructor passes the StreamType constant implied by its signature, one value feeds Spec and protocol layer, IsClient only in client Specs; (5) handler and client derive Procedure with the same function and newSpec copies it.",
 		"URL shapes (the string algorithm of extractProtoPath over all URLs), behaviour of net/http's mux, what interceptors observe at run time.")
+
+	prop("C10", "Deadlines propagate to the handler and are never extended",
+		[]string{"timeout-tables", "timeout-arith", "timeout-trunc", "timeout-handler", "serve-guards"},
+		"(1) the gRPC unit table equals the spec's {n,u,m,S,M,H}, is strictly increasing, and the parser's lookup map is filled only from it; (2) digit limits agree (gRPC: encoder never emits 9 digits, parser accepts 99999999 and rejects 100000000 and negatives; Connect: writer <= reader = 10) and every unit whose maximal product overflows int64 is guarded exactly at MaxInt64/unit with a no-timeout result; "+
+			"(3) both encoders use a truncating integer quotient of time.Until(deadline), set the header only under ctx.Deadline()'s ok and only when the value fits, never a sliced digit string; (4) each SetTimeout returns the request context without a header, invalid_argument on every parse error, and WithTimeout(request.Context(), parsed) otherwise; ServeHTTP defers cancel, passes that context on and never runs user code with an invalid timeout.",
+		"the <=1 ms / <0.01% bound as an arithmetic fact over all durations, the deadline a running handler observes, strconv's acceptance of a leading '+' (noted, not alarmed).")
 }
